@@ -111,6 +111,35 @@ class Scenario:
         o.fields.update(fields)
         return o
 
+    # ---- frames: operands must not be modified by the code under analysis
+    def snapshot(self, *objs):
+        from . import builtins_model as B
+        snap = []
+        for o in objs:
+            if isinstance(o, Obj):
+                for k, v in o.fields.items():
+                    if isinstance(v, B.PyList):
+                        snap.append((o, k, v, v.seq, None if v.items is None else list(v.items)))
+                    else:
+                        snap.append((o, k, v, None, None))
+        return snap
+
+    def unchanged(self, snap):
+        """True iff every field captured by snapshot() still holds the same value (lists: same object, same contents)"""
+        from . import builtins_model as B
+        for o, k, v, seq, items in snap:
+            cur = o.fields.get(k)
+            if cur is not v:
+                return False
+            if isinstance(v, B.PyList):
+                if v.seq is not seq:
+                    return False
+                if (v.items is None) != (items is None):
+                    return False
+                if items is not None and (len(items) != len(v.items) or any(a is not b for a, b in zip(items, v.items))):
+                    return False
+        return True
+
     # ---- obligations
     def oblige(self, kind, goal, exact=True, finding=None, note=None, tag=None, oracle=None, hint=None):
         """state a goal under the current path condition; top-level conjunctions become one obligation each"""
@@ -216,7 +245,8 @@ class Check:
             st['paths'] += 1
             if r.outcome[0] == 'unsupported':
                 st['unsupported'] += 1
-                self._undecided(func_name, label, f'unsupported: {r.outcome[1]}')
+                self._undecided(func_name, label, f'unsupported: {r.outcome[1]}',
+                                oracle=getattr(getattr(r.run, '_S', None), 'oracle', None))
             elif r.outcome[0] == 'end':
                 st['ended'] += 1
             elif r.outcome[0] == 'raise':
@@ -235,8 +265,8 @@ class Check:
             self.vacuity.append(f'{func_name}#{label}: no path reached the end of the scenario')
         return results
 
-    def _undecided(self, func_name, label, why):
-        self.undecided.append({'function': func_name, 'scenario': label, 'reason': why})
+    def _undecided(self, func_name, label, why, oracle=None):
+        self.undecided.append({'function': func_name, 'scenario': label, 'reason': why, 'oracle': oracle})
 
     def trust(self, *items):
         for i in items:
@@ -361,6 +391,28 @@ class Check:
         refuted = [o for o in self.obligations if o.status == 'refuted']
         unknown = [o for o in self.obligations if o.status not in ('proved', 'refuted')]
         violations = []
+        # a scenario the engine could not execute (construct outside the subset) decides nothing by itself; but if the
+        # native oracle of that scenario finds a failing input on the real code, that is a violation all the same
+        still = []
+        seen_und = set()
+        for u in self.undecided:
+            if u.get('oracle'):
+                res = self.native(u['oracle'], {})
+                if res['status'] == 'fails':
+                    key = (u['function'], u['scenario'])
+                    if key not in seen_und:
+                        seen_und.add(key)
+                        path = write_replay(self.prop, f"undecided-{u['function']}-{u['scenario']}", {
+                            'property': self.prop, 'obligation': f"{self.prop}/{u['function']}/(scenario not executable)",
+                            'solver_note': u['reason'], 'oracle': u['oracle'], 'native': res, 'witness': {},
+                            'replayed_on_real_code': True})
+                        print(f'VIOLATION property={self.prop} replay={path}')
+                        print(f"  scenario {u['function']}#{u['scenario']} undecided ({u['reason']}); the native oracle "
+                              f"found a failing input on the real code")
+                        violations.append(None)
+                    continue
+            still.append(u)
+        self.undecided = still
         open_f = {f['id']: f for f in self.findings if f.get('status') == 'open' and
                   (f['property'] == self.prop or self.prop in f.get('also', []))}
         finding_hits: dict = {}
